@@ -27,7 +27,7 @@ COMPONENTS = {"real": ["twisted.python.filepath.FilePath.setContent/temporarySib
               "stub": ["process/kernel boundary for mutating calls (detsim.fs interposer: crash points, torn writes, user-space buffer loss)",
                        "filepath.randomBytes (deterministic temp names)"]}
 RULE = ("run = one tape-drawn case (API variant, target exists or not, old/new content sizes 0..20 KiB, user-space buffer size) for which every crash point "
-        "1..N and torn-write lengths {0,1,len/2,len-1} are enumerated, each followed by restart + inspection + a crash-free retry; "
+        "1..N and torn-write lengths {0,1,len/2,len-1} are enumerated, each followed by restart + byte-level inspection + two crash-free saves (a shorter content, then the new content) over whatever the crash left; "
         "non-trivial = at least 3 crash points enumerated, including a torn write")
 ASSUMPTIONS = ["POSIX rename() is atomic and data handed to write() before a crash survives (process crash, not power loss; the property and the code make no fsync claim)",
                "a crash loses everything still in the process's user-space file buffer"]
@@ -138,6 +138,17 @@ def _enumerate(sim, F, variant, old, new):
             return o.payload if isinstance(o, Obj) else ("garbage", "type", len(raw))
         return raw
 
+    def read_raw():
+        if not os.path.exists(target):
+            return None
+        with open(target, "rb") as f:
+            return f.read()
+
+    def raw_ok(content):
+        # byte-level comparison: a pickle followed by stale bytes still *loads*, so the decoded comparison alone would accept it
+        raw = read_raw()
+        return raw == (None if content is None else encode(content))
+
     def is_temp(name):
         if variant == "setContent":
             return name != tname and name.endswith(tname + ".new")
@@ -154,7 +165,7 @@ def _enumerate(sim, F, variant, old, new):
         operate(new)
     npoints = F.n
     plan = list(F.log)
-    sim.check("crash-free-new-content", read_target() == new, variant, "crash-free operation did not leave the new content")
+    sim.check("crash-free-new-content", read_target() == new and raw_ok(new), variant, "crash-free operation did not leave the new content")
     sim.check("crash-free-no-leftovers", sorted(os.listdir(d)) == [tname], variant, lambda: "left: %r" % sorted(os.listdir(d)))
     sim.event("points", npoints, " ".join(p[1] for p in plan))
     sim.check("has-crash-points", npoints >= 2, variant, "interposer saw %d mutating calls" % npoints)
@@ -180,18 +191,25 @@ def _enumerate(sim, F, variant, old, new):
             F.reboot()
             got = read_target()
             wit = "%s@%s" % (variant, op)
-            ok = (got == new) or (got == old)
+            ok = ((got == new) and raw_ok(new)) or ((got == old) and raw_ok(old))
             sim.check("old-or-new", ok, wit,
                       lambda: "crash at point %d/%d (%s %s, torn=%s): target holds %s; old=%s new=%s"
                       % (n, npoints, op, rel, torn, _d(got), _d(old), _d(new)))
             left = sorted(os.listdir(d))
             stray = [x for x in left if x != tname and not is_temp(x)]
             sim.check("only-temporaries-left", not stray, wit, "stray files after crash at %d (%s): %r" % (n, op, stray))
-            # the restarted process retries: must succeed and leave the new content
-            F.arm()
-            with sim.guard("retry-raised", wit):
-                operate(new)
-            sim.check("retry-new-content", read_target() == new, wit, "retry after crash at %d (%s) left %s" % (n, op, _d(read_target())))
+            # the restarted process saves again - first a SHORTER content (so a scratch file left by the crashed attempt, if reused
+            # without truncation, would show its stale tail), then the original new content: each must leave exactly what was saved
+            short = new[:len(new) // 3]
+            for label, content in (("shorter", short), ("same", new)):
+                F.arm()
+                with sim.guard("retry-raised", wit):
+                    operate(content)
+                sim.check("retry-new-content", read_target() == content and raw_ok(content), wit + "/" + label,
+                          lambda: "save of %s content after crash at %d (%s) left %s (raw %s, expected raw %s)"
+                          % (label, n, op, _d(read_target()), _d(read_raw()), _d(encode(content))))
+                stray = [x for x in sorted(os.listdir(d)) if x != tname and not is_temp(x)]
+                sim.check("only-temporaries-left", not stray, wit + "/" + label, lambda: "stray files after a completed save: %r" % stray)
             sim.step(100000)
     sim.nontrivial = npoints >= 3 and torn_seen > 0
     sim.state((variant, npoints, old is None))
